@@ -399,7 +399,7 @@ Proof.
         rewrite Hr, drop_open_app.
         apply (one_line_drop_mid (out ++ s2) "/*" (t ++ x)).
         rewrite app_assoc_s, <- Hr. exact Hinv. }
-      destruct (negb (starts_with "#include" (trim_start s2)) && negb asm).
+      destruct (negb (is_include_line s2) && negb asm).
       * destruct (split_once """" s2) as [[lft z]|] eqn:E3.
         -- destruct (find_close _ _ _) as [[body rest]|] eqn:Efc in H.
            2:{ pose proof (Hunt _ _ _ _ E2 E3) as Hu. inversion H; subst. exact Hu. }
@@ -410,7 +410,7 @@ Proof.
         -- eapply IHf; eauto.
       * eapply IHf; eauto.
     + (* no comment *)
-      destruct (negb (starts_with "#include" (trim_start pre)) && negb asm).
+      destruct (negb (is_include_line pre) && negb asm).
       * destruct (split_once """" pre) as [[lft z]|] eqn:E3.
         -- destruct (find_close _ _ _) as [[body rest]|] eqn:Efc in H.
            2:{ pose proof (Hunt pre "" _ _ (eq_sym (app_empty_r pre)) E3) as Hu.
@@ -805,6 +805,40 @@ Proof.
   inversion H; subst. apply nlfree_trim. exact Hr.
 Qed.
 
+Lemma take_alpha_split (s w rest : string) : take_alpha s = (w, rest) -> s = w ++ rest.
+Proof.
+  revert w rest. induction s as [|a s IH]; intros w rest H; cbn [take_alpha] in H.
+  - inversion H; subst. reflexivity.
+  - destruct (is_alpha a).
+    + destruct (take_alpha s) as [w' t']. inversion H; subst. cbn [append]. rewrite (IH _ _ eq_refl) at 1. reflexivity.
+    + inversion H; subst. reflexivity.
+Qed.
+
+Lemma nlfree_directive_name_arg (s e : string) :
+  snd (directive_name_arg s) = Some e -> nlfree s = true -> nlfree e = true.
+Proof.
+  unfold directive_name_arg. intros H Hs.
+  pose proof (nlfree_before "//" s Hs) as Hb.
+  destruct (before "//" s) as [|h r]; [discriminate|]. cbv beta iota zeta in H.
+  destruct (take_alpha r) as [w rest] eqn:E. apply take_alpha_split in E.
+  cbn [snd] in H. destruct (String.eqb (trim rest) ""); [discriminate|].
+  inversion H; subst e. apply nlfree_trim.
+  cbn [nlfree] in Hb. apply andb_true_iff in Hb. destruct Hb as [_ Hb].
+  rewrite E in Hb. eapply nlfree_app_r; exact Hb.
+Qed.
+
+(** the blanks after a '#' go: the line stays a line *)
+Lemma one_line_hash_blanks (out : string) : one_line out = true -> one_line (hash_blanks out) = true.
+Proof.
+  intros H. unfold hash_blanks. pose proof (one_line_trim_start _ H) as Ht.
+  destruct (trim_start out) as [|h rest]; [exact H|].
+  destruct (Ascii.eqb h "#") eqn:Eh; [|exact H]. cbv zeta.
+  destruct (Nat.eqb (String.length (trim_start rest)) (String.length rest)); [exact H|].
+  apply Ascii.eqb_eq in Eh. subst h.
+  change (one_line rest = true) in Ht. change (one_line (trim_start rest) = true).
+  apply one_line_trim_start. exact Ht.
+Qed.
+
 Lemma nlfree_remove_hashhash (f : nat) (s : string) :
   nlfree s = true -> nlfree (remove_hashhash f s) = true.
 Proof.
@@ -885,7 +919,7 @@ Definition quiet_step (ms : list macro) (out : string) (p p' : pstate) : Prop :=
 Definition include_step (rec : string -> option (string * N) -> bool -> list string -> pstate -> presult)
            (fs : files) (ms : list macro) (out : string) (ps : pstate) (h : loc) (p' : pstate) : Prop :=
   exists e c iname tl ilines p2,
-    snd (directive_parts (trim (replace_all_c ms out))) = Some e /\
+    snd (directive_name_arg (trim (replace_all_c ms out))) = Some e /\
     split_once c (string_drop 1 e) = Some (iname, tl) /\
     find_file fs iname = Some ilines /\
     rec iname (Some (fst (fst h), snd (fst h))) (is_asm_file iname) ilines (inc_pre ps h iname) = POk p2 /\
@@ -896,8 +930,9 @@ Ltac quiet_same H :=
 
 Lemma line_step_cases rec fs fname inc asm p line buf p' :
   line_step rec fs fname inc asm p line buf = POk p' ->
-  exists out ins sc,
-    scan_parts (scan_line asm buf (c_scan (p_ctx p))) = (out, ins, sc) /\
+  exists out0 ins sc,
+    scan_parts (scan_line asm buf (c_scan (p_ctx p))) = (out0, ins, sc) /\
+    let out := hash_blanks out0 in
     (quiet_step (c_macros (p_ctx p)) out p p' \/
      p' = emit (set_scan p sc) (fname, line, inc) (emit_text (c_macros (p_ctx p)) out buf inc) \/
      include_step rec fs (c_macros (p_ctx p)) out (set_scan p sc) (fname, line, inc) p').
@@ -910,9 +945,10 @@ Proof.
     - exists out, ins, sc. split; [reflexivity|exact H].
     - destruct (cstate_eqb (p_state p) Active); [discriminate|].
       exists out, ins, sc. split; [reflexivity|exact H]. }
-  clear H. destruct Hbody as [out [ins [sc [Escan H]]]].
-  exists out, ins, sc. split; [exact Escan|].
-  unfold line_body in H. cbv zeta in H. unfold err in H.
+  clear H. destruct Hbody as [out0 [ins [sc [Escan H]]]].
+  exists out0, ins, sc. split; [exact Escan|].
+  unfold line_body in H. cbv zeta in H. unfold err in H. cbv zeta.
+  remember (hash_blanks out0) as out eqn:Eout. clear Eout Escan.
   destruct ins; cbn [negb] in H.
   2:{ quiet_same H. }
   change (c_macros (p_ctx (set_scan p sc))) with (c_macros (p_ctx p)) in H.
@@ -940,7 +976,7 @@ Proof.
   destruct (starts_with "#" (trim (replace_all_c (c_macros (p_ctx p)) out))).
   2:{ destruct (cstate_eqb (p_state p) Active); [|quiet_same H].
       inversion H; subst. right; left. reflexivity. }
-  destruct (directive_parts (trim (replace_all_c (c_macros (p_ctx p)) out))) as [name arg] eqn:Edp.
+  destruct (directive_name_arg (trim (replace_all_c (c_macros (p_ctx p)) out))) as [name arg] eqn:Edp.
   destruct (String.eqb name "#include").
   { destruct (cstate_eqb (p_state p) Active); [|quiet_same H].
     destruct arg as [e|]; [|discriminate].
@@ -1081,12 +1117,12 @@ Qed.
 
 Lemma include_iname_nlfree ms out e c iname tl :
   macros_ok ms -> one_line out = true ->
-  snd (directive_parts (trim (replace_all_c ms out))) = Some e ->
+  snd (directive_name_arg (trim (replace_all_c ms out))) = Some e ->
   split_once c (string_drop 1 e) = Some (iname, tl) -> nlfree iname = true.
 Proof.
   intros Hms Ho Hdp Hso.
   pose proof (one_line_trim _ (replace_all_c_one_line ms out Hms Ho)) as Ht.
-  pose proof (nlfree_directive_parts _ _ Hdp Ht) as He.
+  pose proof (nlfree_directive_name_arg _ _ Hdp Ht) as He.
   eapply nlfree_split_once in Hso; [apply Hso|]. apply nlfree_drop. exact He.
 Qed.
 
@@ -1100,8 +1136,9 @@ Lemma line_step_L1 rec fs fname inc asm p line buf p' :
   Winv p' /\ (ends_nl buf = true \/ inc <> None -> Sinv p').
 Proof.
   intros Hrec HS Hbuf H.
-  apply line_step_cases in H. destruct H as [out [ins [sc [Hscan H]]]].
-  pose proof (scan_line_one_line_parts _ _ _ _ _ _ Hscan Hbuf) as Hout.
+  apply line_step_cases in H. destruct H as [out0 [ins [sc [Hscan H]]]].
+  pose proof (one_line_hash_blanks _ (scan_line_one_line_parts _ _ _ _ _ _ Hscan Hbuf)) as Hout.
+  cbv zeta in H. remember (hash_blanks out0) as out eqn:Eout. clear Eout Hscan.
   pose proof HS as [Hms [Hc Hl]].
   destruct H as [Hq|[He|Hi]].
   - assert (HS' : Sinv p').
@@ -1308,7 +1345,8 @@ Lemma line_step_origin rec fs fname inc asm p line buf p' lines :
   exists new, p_map p' = new ++ p_map p /\ Forall (origin fs fname inc lines) new.
 Proof.
   intros Hrec Hline H.
-  apply line_step_cases in H. destruct H as [out [ins [sc [Hscan H]]]].
+  apply line_step_cases in H. destruct H as [out0 [ins [sc [Hscan H]]]].
+  cbv zeta in H. remember (hash_blanks out0) as out eqn:Eout. clear Eout Hscan.
   assert (Hown : origin fs fname inc lines (fname, line, inc)) by (constructor; exact Hline).
   destruct H as [Hq|[He|Hi]].
   - destruct Hq as [_ [Hq _]]. exists []. split; [exact Hq|constructor].
@@ -1386,7 +1424,8 @@ Lemma line_step_desc rec fname inc asm p line line' buf p' :
   desc (p_map p') /\ below line' (p_map p').
 Proof.
   intros Hlt Hd Hb H.
-  apply line_step_cases in H. destruct H as [out [ins [sc [Hscan H]]]].
+  apply line_step_cases in H. destruct H as [out0 [ins [sc [Hscan H]]]].
+  cbv zeta in H. remember (hash_blanks out0) as out eqn:Eout. clear Eout Hscan.
   destruct H as [Hq|[He|Hi]].
   - destruct Hq as [_ [Hq _]]. rewrite Hq. split; [exact Hd|]. eapply below_mono; [|exact Hb]. lia.
   - subst p'. cbn [emit p_map set_scan]. split.
@@ -1702,11 +1741,11 @@ Theorem entry_of_spliced_line_emitted : forall rec fs fname inc asm p line buf p
   (Hscan : scan_line asm buf (c_scan (p_ctx p)) = ScanOk out true sc)
   (Hstep : line_step rec fs fname inc asm p line buf = POk p')
   (Hemits : p_map p' <> p_map p)
-  (Hnoinc : forall e, snd (directive_parts (trim (replace_all_c (c_macros (p_ctx p)) out))) = Some e -> False),
+  (Hnoinc : forall e, snd (directive_name_arg (trim (replace_all_c (c_macros (p_ctx p)) (hash_blanks out)))) = Some e -> False),
   p_map p' = (fname, line, inc) :: p_map p.
 Proof.
   intros. apply line_step_cases in Hstep. destruct Hstep as [out' [ins' [sc' [Hscan' H]]]].
-  rewrite Hscan in Hscan'. cbn [scan_parts] in Hscan'. inversion Hscan'; subst out' ins' sc'.
+  rewrite Hscan in Hscan'. cbn [scan_parts] in Hscan'. inversion Hscan'; subst out' ins' sc'. cbv zeta in H.
   destruct H as [Hq|[He|Hi]].
   - destruct Hq as [_ [Hq _]]. contradiction.
   - subst p'. reflexivity.
@@ -1909,7 +1948,8 @@ Lemma line_step_entries rec fs fname inc asm p line buf p' :
                      exists g gl, origin fs g (Some (fname, line)) gl e) new.
 Proof.
   intros Hrec H.
-  apply line_step_cases in H. destruct H as [out [ins [sc [Hscan H]]]].
+  apply line_step_cases in H. destruct H as [out0 [ins [sc [Hscan H]]]].
+  cbv zeta in H. remember (hash_blanks out0) as out eqn:Eout. clear Eout Hscan.
   destruct H as [Hq|[He|Hi]].
   - destruct Hq as [_ [Hq _]]. exists []. split; [exact Hq|constructor].
   - subst p'. exists [(fname, line, inc)]. split; [reflexivity|]. constructor; [left; reflexivity|constructor].
